@@ -68,35 +68,45 @@ Section Inverse.
 End Inverse.
 
 (* ---------------------------------------------------------------- IntRNSsystem objects *)
-(* invariant of the lazy caches: each is either "not computed yet" or the value a fresh system would compute *)
+(* invariant of the caches: each holds the value ComputeCk / ComputeProd compute for the primes of the object
+   (for an object without primes: the empty table and the empty product 1) *)
 Definition int_wf (S : IntRNS) : Prop :=
-  (i_ck S = [] \/ i_ck S = ComputeCk_int (i_primes S)) /\
-  (i_prod S = 1 \/ i_prod S = prodl (i_primes S)).
+  i_ck S = ComputeCk_int (i_primes S) /\ i_prod S = prodl (i_primes S).
 
-Lemma int_ensure_ck_spec : forall S, int_wf S ->
-  int_wf (int_ensure_ck S) /\ i_primes (int_ensure_ck S) = i_primes S /\
-  i_ck (int_ensure_ck S) = ComputeCk_int (i_primes S).
+Lemma int_ensure_ck_spec : forall S, i_ck S = [] \/ i_ck S = ComputeCk_int (i_primes S) ->
+  i_ck (int_ensure_ck S) = ComputeCk_int (i_primes S) /\ i_primes (int_ensure_ck S) = i_primes S /\
+  i_prod (int_ensure_ck S) = i_prod S.
 Proof.
-  intros S [Hck Hp]. unfold int_ensure_ck. destruct (i_ck S) eqn:E.
-  - cbn [i_primes i_ck i_prod]. repeat split; auto; try (right; reflexivity).
-  - destruct Hck as [Hck|Hck]; [discriminate|]. repeat split; auto; try (rewrite E; auto).
+  intros S Hck. unfold int_ensure_ck. destruct (i_ck S) eqn:E.
+  - cbn [i_primes i_ck i_prod]. auto.
+  - destruct Hck as [Hck|Hck]; [discriminate|]. rewrite E. auto.
 Qed.
 
-Lemma int_ensure_prod_spec : forall S, int_wf S ->
-  int_wf (int_ensure_prod S) /\ i_primes (int_ensure_prod S) = i_primes S /\
-  i_prod (int_ensure_prod S) = prodl (i_primes S).
+Lemma int_ensure_prod_spec : forall S, i_prod S = 1 \/ i_prod S = prodl (i_primes S) ->
+  i_prod (int_ensure_prod S) = prodl (i_primes S) /\ i_primes (int_ensure_prod S) = i_primes S /\
+  i_ck (int_ensure_prod S) = i_ck S.
 Proof.
-  intros S [Hck Hp]. unfold int_ensure_prod. destruct (Z.eqb_spec (i_prod S) 1) as [E|E].
-  - cbn [i_primes i_prod i_ck]. rewrite E, fold_left_mul, Z.mul_1_l. repeat split; auto; try (right; reflexivity).
-  - destruct Hp as [Hp|Hp]; [congruence|]. repeat split; auto.
+  intros S Hp. unfold int_ensure_prod. destruct (Z.eqb_spec (i_prod S) 1) as [E|E].
+  - cbn [i_primes i_prod i_ck]. rewrite E, fold_left_mul, Z.mul_1_l. auto.
+  - destruct Hp as [Hp|Hp]; [congruence|]. auto.
 Qed.
+
+Lemma int_mk_tt_wf : forall ps, int_wf (int_mk_tt CkEmpty ps) /\ i_primes (int_mk_tt CkEmpty ps) = ps.
+Proof.
+  intros ps. unfold int_mk_tt.
+  destruct (int_ensure_prod_spec (mkIntRNS ps 1 [])) as (P1 & P2 & P3); [left; reflexivity|].
+  destruct (int_ensure_ck_spec (int_ensure_prod (mkIntRNS ps 1 []))) as (C1 & C2 & C3); [left; rewrite P3; reflexivity|].
+  cbn [i_primes] in *. unfold int_wf. rewrite C1, C2, C3, P1, P2. auto.
+Qed.
+Lemma int_mk_wf : forall ps, int_wf (int_mk ps) /\ i_primes (int_mk ps) = ps.
+Proof. exact int_mk_tt_wf. Qed.
 
 Lemma int_RnsToMixedRadix_spec : forall S rs, int_wf S ->
   int_wf (fst (int_RnsToMixedRadix S rs)) /\ i_primes (fst (int_RnsToMixedRadix S rs)) = i_primes S /\
   snd (int_RnsToMixedRadix S rs) = RnsToMixedRadix_int (i_primes S) (ComputeCk_int (i_primes S)) rs.
 Proof.
-  intros S rs H. unfold int_RnsToMixedRadix. cbn [fst snd].
-  destruct (int_ensure_ck_spec S H) as (W & P & C). rewrite P, C. auto.
+  intros S rs [Hc Hp]. unfold int_RnsToMixedRadix. cbn [fst snd].
+  destruct (int_ensure_ck_spec S (or_intror Hc)) as (C & P & Q). unfold int_wf. rewrite P, C, Q. auto.
 Qed.
 
 Lemma int_RnsToRing_spec : forall S rs, int_wf S ->
@@ -111,12 +121,12 @@ Qed.
 Lemma int_product_spec : forall S, int_wf S ->
   int_wf (fst (int_product S)) /\ i_primes (fst (int_product S)) = i_primes S /\
   snd (int_product S) = prodl (i_primes S).
-Proof. intros S H. unfold int_product. cbn [fst snd]. apply int_ensure_prod_spec; exact H. Qed.
+Proof. intros S H. unfold int_product. cbn [fst snd]. repeat split; apply H. Qed.
 
 Lemma int_Reciprocals_spec : forall S, int_wf S ->
   int_wf (fst (int_Reciprocals S)) /\ i_primes (fst (int_Reciprocals S)) = i_primes S /\
   snd (int_Reciprocals S) = ComputeCk_int (i_primes S).
-Proof. intros S H. unfold int_Reciprocals. cbn [fst snd]. apply int_ensure_ck_spec; exact H. Qed.
+Proof. intros S H. unfold int_Reciprocals. cbn [fst snd]. repeat split; apply H. Qed.
 
 (* every way of obtaining an IntRNSsystem object: constructors, copy, assignment, and any earlier use *)
 Inductive iexp : Type :=
@@ -156,9 +166,9 @@ Fixpoint iprimes (e : iexp) : list Z :=
 Lemma ieval_wf : forall e, int_wf (ieval FromCk CkEmpty e) /\ i_primes (ieval FromCk CkEmpty e) = iprimes e.
 Proof.
   induction e as [ps|ps| |e IH|d IHd s IHs|e IH rs|e IH rs|e IH|e IH]; cbn [ieval iprimes].
-  - split; [split; left; reflexivity|reflexivity].
-  - split; [split; left; reflexivity|reflexivity].
-  - split; [split; left; reflexivity|reflexivity].
+  - apply int_mk_wf.
+  - apply int_mk_tt_wf.
+  - split; [split; reflexivity|reflexivity].
   - destruct IH as [W P]. unfold int_copy. split; [exact W|exact P].
   - exact IHs.
   - destruct IH as [W P]. destruct (int_RnsToMixedRadix_spec _ rs W) as (W' & P' & _). split; [exact W'|congruence].
@@ -186,16 +196,20 @@ Lemma int_obtain_hexp : forall src ci (tt : bool) h primes other,
 Proof. intros src ci tt h primes other. destruct tt, h; reflexivity. Qed.
 
 (* ---------------------------------------------------------------- RNSsystem<RING,Domain> objects *)
-Definition dom_wf (S : DomRNS) : Prop := d_ck S = [] \/ d_ck S = ComputeCk_dom (d_primes S).
+Definition dom_wf (S : DomRNS) : Prop := d_ck S = ComputeCk_dom (d_primes S).
 
-Lemma dom_ensure_ck_spec : forall S, dom_wf S ->
+Lemma dom_ensure_ck_spec : forall S, d_ck S = [] \/ d_ck S = ComputeCk_dom (d_primes S) ->
   dom_wf (dom_ensure_ck S) /\ d_primes (dom_ensure_ck S) = d_primes S /\
   d_ck (dom_ensure_ck S) = ComputeCk_dom (d_primes S).
 Proof.
-  intros S Hck. unfold dom_ensure_ck. destruct (d_ck S) eqn:E.
-  - cbn [d_primes d_ck]. repeat split; auto; try (right; reflexivity).
-  - destruct Hck as [Hck|Hck]; [congruence|]. repeat split; auto; try (rewrite E; auto).
-    right. exact Hck.
+  intros S Hck. unfold dom_ensure_ck, dom_wf. destruct (d_ck S) eqn:E.
+  - cbn [d_primes d_ck]. auto.
+  - destruct Hck as [Hck|Hck]; [congruence|]. rewrite E. auto.
+Qed.
+
+Lemma dom_mk_wf : forall ps, dom_wf (dom_mk ps) /\ d_primes (dom_mk ps) = ps.
+Proof.
+  intros ps. unfold dom_mk. destruct (dom_ensure_ck_spec (mkDomRNS ps [])) as (W & P & _); [left; reflexivity|]. auto.
 Qed.
 
 Lemma dom_RnsToMixedRadix_spec : forall S rs, dom_wf S ->
@@ -203,7 +217,7 @@ Lemma dom_RnsToMixedRadix_spec : forall S rs, dom_wf S ->
   snd (dom_RnsToMixedRadix S rs) = RnsToMixedRadix_dom (d_primes S) (ComputeCk_dom (d_primes S)) rs.
 Proof.
   intros S rs H. unfold dom_RnsToMixedRadix. cbn [fst snd].
-  destruct (dom_ensure_ck_spec S H) as (W & P & C). rewrite P, C. auto.
+  destruct (dom_ensure_ck_spec S (or_intror H)) as (W & P & C). rewrite P, C. auto.
 Qed.
 
 Lemma dom_RnsToRing_spec : forall S rs, dom_wf S ->
@@ -218,7 +232,7 @@ Qed.
 Lemma dom_Reciprocals_spec : forall S, dom_wf S ->
   dom_wf (fst (dom_Reciprocals S)) /\ d_primes (fst (dom_Reciprocals S)) = d_primes S /\
   snd (dom_Reciprocals S) = ComputeCk_dom (d_primes S).
-Proof. intros S H. unfold dom_Reciprocals. cbn [fst snd]. apply dom_ensure_ck_spec; exact H. Qed.
+Proof. intros S H. unfold dom_Reciprocals. cbn [fst snd]. auto. Qed.
 
 Inductive dexp : Type :=
   | Dmk (ps : list Z)                 (* RNSsystem(domains) *)
@@ -255,11 +269,11 @@ Fixpoint dprimes (e : dexp) : list Z :=
 Lemma deval_wf : forall e, dom_wf (deval e) /\ d_primes (deval e) = dprimes e.
 Proof.
   induction e as [ps| |e IH|d IHd s IHs|e IH ps|e IH rs|e IH rs|e IH]; cbn [deval dprimes].
-  - split; [left; reflexivity|reflexivity].
-  - split; [left; reflexivity|reflexivity].
+  - apply dom_mk_wf.
+  - split; reflexivity.
   - destruct IH as [W P]. unfold dom_copy, dom_wf in *. cbn [d_ck d_primes]. split; [exact W|exact P].
   - exact IHs.
-  - split; [left; reflexivity|reflexivity].
+  - apply dom_mk_wf.
   - destruct IH as [W P]. destruct (dom_RnsToMixedRadix_spec _ rs W) as (W' & P' & _). split; [exact W'|congruence].
   - destruct IH as [W P]. destruct (dom_RnsToRing_spec _ rs W) as (W' & P' & _). split; [exact W'|congruence].
   - destruct IH as [W P]. destruct (dom_Reciprocals_spec _ W) as (W' & P' & _). split; [exact W'|congruence].
